@@ -442,27 +442,27 @@ pub open spec fn attach_post(o: &ParseInfo, n: &ParseInfo, ctx: UserDataContext,
                      "        r.layers@.len() == 0, r.slices@.len() == 0, r.tags is None, r.palette is None, r.color_profile is None, r.sprite_user_data is None, r.user_data_context is None,")},
         {"kind": "fn", "file": "parse", "name": "add_layer", "impl_of": "ParseInfo",
          "requires": "        old(self).layers@.len() < u32::MAX,",
-         "ensures": ("        final(self).frame_times@ == old(self).frame_times@, final(self).framedata.data.len() == old(self).framedata.data.len(),\n"
+         "ensures": ("        final(self).frame_times@ == old(self).frame_times@, final(self).framedata.data.len() == old(self).framedata.data.len(), final(self).palette == old(self).palette,\n"
                      "        final(self).layers@ == old(self).layers@.push(layer_data),\n"
                      "        final(self).user_data_context == Some(UserDataContext::LayerIndex(old(self).layers@.len() as u32)),\n"
                      "        final(self).tags == old(self).tags, final(self).slices@ == old(self).slices@, final(self).sprite_user_data == old(self).sprite_user_data,\n"
                      "        final(self).framedata == old(self).framedata,")},
         {"kind": "fn", "file": "parse", "name": "add_slice", "impl_of": "ParseInfo",
          "requires": "        old(self).slices@.len() < u32::MAX,",
-         "ensures": ("        final(self).frame_times@ == old(self).frame_times@, final(self).framedata.data.len() == old(self).framedata.data.len(),\n"
+         "ensures": ("        final(self).frame_times@ == old(self).frame_times@, final(self).framedata.data.len() == old(self).framedata.data.len(), final(self).palette == old(self).palette,\n"
                      "        final(self).slices@ == old(self).slices@.push(slice),\n"
                      "        final(self).user_data_context == Some(UserDataContext::SliceIndex(old(self).slices@.len() as u32)),\n"
                      "        final(self).tags == old(self).tags, final(self).layers@ == old(self).layers@, final(self).sprite_user_data == old(self).sprite_user_data,\n"
                      "        final(self).framedata == old(self).framedata,")},
         {"kind": "fn", "file": "parse", "name": "add_tags", "impl_of": "ParseInfo",
-         "ensures": ("        final(self).frame_times@ == old(self).frame_times@, final(self).framedata.data.len() == old(self).framedata.data.len(),\n"
+         "ensures": ("        final(self).frame_times@ == old(self).frame_times@, final(self).framedata.data.len() == old(self).framedata.data.len(), final(self).palette == old(self).palette,\n"
                      "        final(self).tags == Some(tags),\n"
                      "        final(self).user_data_context == Some(UserDataContext::TagIndex(0)),\n"
                      "        final(self).slices@ == old(self).slices@, final(self).layers@ == old(self).layers@, final(self).sprite_user_data == old(self).sprite_user_data,\n"
                      "        final(self).framedata == old(self).framedata,")},
         {"kind": "fn", "file": "parse", "name": "add_cel", "impl_of": "ParseInfo", "ret": "r",
          "sig_rewrites": [("cel::RawCel<RawPixels>", "RawCel")], "rules": ["R1", "R6", "R11"],
-         "ensures": ("        final(self).frame_times@ == old(self).frame_times@, final(self).framedata.data.len() == old(self).framedata.data.len(),\n"
+         "ensures": ("        final(self).frame_times@ == old(self).frame_times@, final(self).framedata.data.len() == old(self).framedata.data.len(), final(self).palette == old(self).palette,\n"
                      "        final(self).layers@ == old(self).layers@, final(self).tags == old(self).tags, final(self).slices@ == old(self).slices@,\n"
                      "        final(self).sprite_user_data == old(self).sprite_user_data,\n"
                      "        ctx_wf(old(self)) ==> ctx_wf(final(self)),\n"
@@ -471,7 +471,7 @@ pub open spec fn attach_post(o: &ParseInfo, n: &ParseInfo, ctx: UserDataContext,
                      "        r is Err ==> final(self).user_data_context == old(self).user_data_context,")},
         {"kind": "fn", "file": "parse", "name": "set_tag_user_data", "impl_of": "ParseInfo", "ret": "r", "rules": ["R1", "R6", "R11"],
          "requires": "        old(self).tags is Some ==> old(self).tags->0@.len() <= 65535,",
-         "ensures": ("        final(self).frame_times@ == old(self).frame_times@, final(self).framedata.data.len() == old(self).framedata.data.len(),\n"
+         "ensures": ("        final(self).frame_times@ == old(self).frame_times@, final(self).framedata.data.len() == old(self).framedata.data.len(), final(self).palette == old(self).palette,\n"
                      "        final(self).layers@ == old(self).layers@, final(self).slices@ == old(self).slices@, final(self).sprite_user_data == old(self).sprite_user_data,\n"
                      "        final(self).framedata == old(self).framedata,\n"
                      "        r is Ok <==> (old(self).tags is Some && (tag_index as int) < old(self).tags->0@.len()),\n"
@@ -484,7 +484,7 @@ pub open spec fn attach_post(o: &ParseInfo, n: &ParseInfo, ctx: UserDataContext,
         {"kind": "fn", "file": "parse", "name": "add_user_data", "impl_of": "ParseInfo", "ret": "r", "rules": ["R1", "R6", "R11"],
          "requires": ("        old(self).tags is Some ==> old(self).tags->0@.len() <= 65535,\n"
                       "        ctx_wf(old(self)),"),
-         "ensures": ("        final(self).frame_times@ == old(self).frame_times@, final(self).framedata.data.len() == old(self).framedata.data.len(),\n"
+         "ensures": ("        final(self).frame_times@ == old(self).frame_times@, final(self).framedata.data.len() == old(self).framedata.data.len(), final(self).palette == old(self).palette,\n"
                      "        ctx_wf(final(self)),\n"
                      "        old(self).user_data_context is None ==> r is Err,\n"
                      "        final(self).layers@.len() == old(self).layers@.len(), final(self).slices@.len() == old(self).slices@.len(),\n"
@@ -510,15 +510,37 @@ impl ParseInfo {
         ensures final(self).layers@ == old(self).layers@, final(self).slices@ == old(self).slices@, tags_same(final(self).tags, old(self).tags),
             final(self).user_data_context == old(self).user_data_context, final(self).sprite_user_data == old(self).sprite_user_data,
             cels_same(&final(self).framedata, &old(self).framedata), final(self).framedata.data.len() == old(self).framedata.data.len(),
-            final(self).frame_times@ == old(self).frame_times@, (final(self).palette is Some) == (old(self).palette is Some),
+            final(self).frame_times@ == old(self).frame_times@, final(self).palette == old(self).palette,
     { unimplemented!() }
 }
 /// the chunk decoders: their own contracts are the units dec_*; here only what the dispatch needs
 pub mod color_profile { use super::*; #[verifier::external_body] pub fn parse_chunk(data: &[u8]) -> Result<ColorProfile> { unimplemented!() } }
+/// the palette each decoder yields for a payload (their contents are the contracts of unit dec_palette; here: a function of the payload)
+pub uninterp spec fn spec_pal_new(d: Seq<u8>) -> ColorPalette;
+pub uninterp spec fn spec_pal_old04(d: Seq<u8>) -> ColorPalette;
+pub uninterp spec fn spec_pal_old11(d: Seq<u8>) -> ColorPalette;
 pub mod palette { use super::*;
-    #[verifier::external_body] pub fn parse_chunk(data: &[u8]) -> Result<ColorPalette> { unimplemented!() }
-    #[verifier::external_body] pub fn parse_old_chunk_04(data: &[u8]) -> Result<ColorPalette> { unimplemented!() }
-    #[verifier::external_body] pub fn parse_old_chunk_11(data: &[u8]) -> Result<ColorPalette> { unimplemented!() } }
+    #[verifier::external_body] pub fn parse_chunk(data: &[u8]) -> (r: Result<ColorPalette>) ensures r is Ok ==> r->Ok_0 == spec_pal_new(data@), { unimplemented!() }
+    #[verifier::external_body] pub fn parse_old_chunk_04(data: &[u8]) -> (r: Result<ColorPalette>) ensures r is Ok ==> r->Ok_0 == spec_pal_old04(data@), { unimplemented!() }
+    #[verifier::external_body] pub fn parse_old_chunk_11(data: &[u8]) -> (r: Result<ColorPalette>) ensures r is Ok ==> r->Ok_0 == spec_pal_old11(data@), { unimplemented!() } }
+/// C11: which palette the sprite ends up with. A new-format chunk always replaces the palette; a legacy chunk is used
+/// only while there is none (so the new format wins in either order, and the first legacy chunk wins among legacy ones)
+pub open spec fn pal_view(p: &ParseInfo) -> Option<ColorPalette> {
+    match p.palette { Some(a) => Some(*a), None => None }
+}
+pub open spec fn pal_step(pal: Option<ColorPalette>, c: Chunk) -> Option<ColorPalette> {
+    match c.chunk_type {
+        ChunkType::Palette => Some(spec_pal_new(c.data@)),
+        ChunkType::OldPalette04 => if pal is None { Some(spec_pal_old04(c.data@)) } else { pal },
+        ChunkType::OldPalette11 => if pal is None { Some(spec_pal_old11(c.data@)) } else { pal },
+        _ => pal,
+    }
+}
+pub open spec fn pal_fold(cs: Seq<Chunk>, i: int, p0: Option<ColorPalette>) -> Option<ColorPalette>
+    decreases i,
+{
+    if i <= 0 { p0 } else { pal_step(pal_fold(cs, i - 1, p0), cs[i - 1]) }
+}
 pub mod layer { use super::*; #[verifier::external_body] pub fn parse_chunk(data: &[u8]) -> Result<LayerData> { unimplemented!() } }
 pub mod cel { use super::*;
     #[verifier::external_body] pub fn parse_chunk(data: &[u8], pixel_format: PixelFormat) -> (r: Result<RawCel>)
@@ -580,7 +602,8 @@ pub open spec fn frame_chunks(d: Seq<u8>, o: int) -> Seq<Chunk> {
                      "            &&& o + 16 <= d.len() && le_u16(d, o + 4) == 0xF1FA\n"
                      "            &&& final(parse_info).frame_times@.len() == old(parse_info).frame_times@.len()\n"
                      "            &&& final(parse_info).frame_times@[frame_id as int] as int == le_u16(d, o + 8)\n"
-                     "            &&& glue_view(final(parse_info)) == glue_fold(cs, cs.len() as int, frame_id, glue_view(old(parse_info))) }),"),
+                     "            &&& glue_view(final(parse_info)) == glue_fold(cs, cs.len() as int, frame_id, glue_view(old(parse_info)))\n"
+                     "            &&& pal_view(final(parse_info)) == pal_fold(cs, cs.len() as int, pal_view(old(parse_info))) }),"),
          "loops": {1: ("        invariant\n"
                        "            it.snapshot@.remaining() == cs, it.index@ <= cs.len(),\n"
                        "            cs == frame_chunks(old(reader).data(), old(reader).pos()),\n"
@@ -591,9 +614,10 @@ pub open spec fn frame_chunks(d: Seq<u8>, o: int) -> Seq<Chunk> {
                        "            (frame_id as int) < parse_info.framedata.data.len(),\n"
                        "            parse_info.tags is Some ==> parse_info.tags->0@.len() <= 65535,\n"
                        "            ctx_wf(parse_info),\n"
-                       "            glue_view(parse_info) == glue_fold(cs, it.index@ as int, frame_id, glue_view(old(parse_info))),")},
+                       "            glue_view(parse_info) == glue_fold(cs, it.index@ as int, frame_id, glue_view(old(parse_info))),\n"
+                       "            pal_view(parse_info) == pal_fold(cs, it.index@ as int, pal_view(old(parse_info))),")},
          "hints": [("for chunk in it: chunks", "    let ghost cs = chunks@;", "before"),
-                   ("let Chunk { chunk_type, data } = chunk;", "        assert(chunk == cs[it.index@ as int]);\n        assert(glue_fold(cs, it.index@ as int + 1, frame_id, glue_view(old(parse_info))) == glue_step(glue_fold(cs, it.index@ as int, frame_id, glue_view(old(parse_info))), cs[it.index@ as int], frame_id));", "before")]},
+                   ("let Chunk { chunk_type, data } = chunk;", "        assert(chunk == cs[it.index@ as int]);\n        assert(glue_fold(cs, it.index@ as int + 1, frame_id, glue_view(old(parse_info))) == glue_step(glue_fold(cs, it.index@ as int, frame_id, glue_view(old(parse_info))), cs[it.index@ as int], frame_id));\n        assert(pal_fold(cs, it.index@ as int + 1, pal_view(old(parse_info))) == pal_step(pal_fold(cs, it.index@ as int, pal_view(old(parse_info))), cs[it.index@ as int]));", "before")]},
     ],
 }
 
